@@ -22,6 +22,9 @@ def shapes():
 
 
 def drive(ctx):
+    from .. import suite
+
+    suite.trace_suite(ctx)      # the repository's own tests, recorded by the external tracer
     q = ctx.quick()
     rnd = ctx.rnd
     n = 0
